@@ -33,7 +33,7 @@ H0 == IF Real THEN 10197399 ELSE 11
 WorldCfg == IF Real
             THEN [world |-> "W2u", stakePeriod |-> 6, expirePeriod |-> 5, initial |-> H0 + 1, unbond |-> 531, move |-> 177, jail |-> 354, chain |-> Chain, family |-> "staking"]
             ELSE [world |-> "W2u", stakePeriod |-> 3, expirePeriod |-> 5, initial |-> H0 + 1, unbond |-> 3, move |-> 2, jail |-> 2, chain |-> Chain, family |-> "staking",
-                  lock |-> 4, window |-> 4, grace |-> 3, minStake |-> 1000]
+                  lock |-> 4, window |-> 4, grace |-> 3, minStake |-> 1000, lockFrom |-> H0 + 1]
 Cap == 1000000000
 PriceFields == {"PayloadByte", "Send", "BuyBancor", "SellBancor", "SellAllBancor", "BuyPoolBase", "BuyPoolDelta", "SellPoolBase",
    "SellPoolDelta", "SellAllPoolBase", "SellAllPoolDelta", "CreateTicker3", "CreateTicker4", "CreateTicker5", "CreateTicker6",
@@ -247,6 +247,7 @@ ReachStep ==
    /\ Mark("MoveFromWaitList", OkTx("MoveStake") /\ SenderWaits(Arg("from")))
    /\ Mark("MoveEqualKeys", Rej(EqualPubKey))
    /\ Mark("LockStakeOk", OkTx("LockStake"))
+   /\ Mark("LockStakeNotYet", Rej(Unavailable))
    /\ Mark("UnbondBlocked", Rej(UnbondBlocked))
    /\ Mark("SwitchOffByControl", OkTx("SetCandidateOff") /\ Tx.sender # st.cands[Arg("pub")].owner)
    /\ Mark("SwitchByStranger", Rej(IsNotOwnerOfCandidate))
